@@ -1349,7 +1349,7 @@ class HistoryGen:
         return rec
 
 
-FAULT_KINDS = ["timeout", "rlimit", "memory", "unknown", "canceled"]
+FAULT_KINDS = ["timeout", "rlimit", "memory", "unknown", "canceled", "z3exception"]
 FAULTABLE = {"sat", "eval", "batch_eval", "min", "max", "solution", "unsat_core"}
 
 
